@@ -26,7 +26,7 @@ import (
 // file handle, drop every cache, open the file again as the level manager does
 // at start-up). The reference is the sorted entry slice itself.
 
-func init() { props["C35"] = sim.PropSpec{Gen: genC35, Exec: execC35} }
+func init() { props["C35"] = sim.PropSpec{Gen: genC35, Exec: execC35, NoShrink: noShrink} }
 
 var c35Versions = []uint64{1, 2, 3, 5, 100, 1 << 40, math.MaxUint64 - 1, math.MaxUint64}
 
@@ -257,7 +257,7 @@ func execC35(t *testing.T, c *sim.Case) *sim.Result {
 		ents[i] = &kv.Entry{Key: x.key, Value: x.val, Meta: x.meta, ExpiresAt: x.expire}
 	}
 	h, err := w.env.Build(1, ents)
-	res.Trace.Add("build n=%d bs=%d err=%v", len(st), w.opt.BlockSize, err)
+	res.Trace.Add("build n=%d bs=%d err=%s", len(st), w.opt.BlockSize, errS(err))
 	if err != nil {
 		res.Violate(0, "build_failed", w.sig(nil), "building a table of %d sorted entries failed: %v", len(st), err)
 		w.env.Close()
@@ -337,7 +337,7 @@ func (w *c35World) doReopen() bool {
 	w.env.Close()
 	w.env = lsm.VerifNewTableEnv(w.opt)
 	h, err := w.env.Open(1)
-	w.res.Trace.Add("reopen err=%v", err)
+	w.res.Trace.Add("reopen err=%s", errS(err))
 	w.res.Checks++
 	if err != nil {
 		w.h = nil
@@ -360,7 +360,7 @@ func (w *c35World) get(i int) {
 	ver := kv.ParseTs(x.key)
 	e, err := w.h.Search(x.key, ver-1)
 	w.res.Checks++
-	w.res.Trace.Add("get %d ok=%v err=%v", i, sameEnt(e, x), err)
+	w.res.Trace.Add("get %d ok=%v err=%s", i, sameEnt(e, x), errS(err))
 	switch {
 	case err == nil && sameEnt(e, x):
 	case errors.Is(err, utils.ErrKeyNotFound):
@@ -506,7 +506,7 @@ func (w *c35World) scan(asc bool) {
 	if !asc {
 		dir = "reverse"
 	}
-	w.res.Trace.Add("scan %s n=%d bad=%d err=%v", dir, n, bad, perr)
+	w.res.Trace.Add("scan %s n=%d bad=%d err=%s", dir, n, bad, errS(perr))
 	switch {
 	case perr != nil:
 		w.res.Violate(w.step, "scan_panic", w.sig(map[string]string{"dir": dir}), "%s scan: %v", dir, perr)
